@@ -826,7 +826,9 @@ impl Rasn {
                         ..Default::default()
                     })
                 } else {
-                    Ok(self.inner_name(split[1], split[2]).to_token_stream())
+                    Ok(self
+                        .inner_name(split[1], &self.to_rust_title_case(split[2]).to_string())
+                        .to_token_stream())
                 }
             } else {
                 Ok(self.to_rust_title_case(t))
